@@ -324,6 +324,19 @@ struct Exec {
     w.endObj().emit(out);
   }
 
+  // CodeHolder::reinit(): "on_reinit" of the attached Compiler - everything the front end holds is gone, the code is a fresh .text section
+  void reinit() {
+    Error e = take_err(code.reinit());
+    ids.clear();
+    created.clear(); regs.clear(); virt_ids.clear(); is_stack.clear(); func_labels.clear();
+    clean = true; open = 0; finalized = false; label_invokes = 0;
+    BaseNode* n0 = cc.first_node();
+    w.beginObj().kv("e", "Reinit").kv("r", err_name(e)).kv("n0", id(n0)).kv("k0", n0 ? kind_name(n0) : "none")
+     .kv("annots", (unsigned)cc.jump_annotations().size()).kv("pools", (cc._const_pools[0] ? 1 : 0) + (cc._const_pools[1] ? 1 : 0));
+    proj();
+    w.endObj().emit(out);
+  }
+
   void finalize() {
     if (finalized || !clean || open != 0) return;
     Error e = take_err(cc.finalize());
@@ -355,6 +368,7 @@ struct Exec {
     else if (name == "Rename") rename(I(1), B(2));
     else if (name == "NewAnnot") new_annot();
     else if (name == "Finalize") finalize();
+    else if (name == "Reinit") reinit();
     else { fprintf(stderr, "unknown op %s\n", name.c_str()); exit(3); }
   }
 
@@ -379,8 +393,9 @@ struct Exec {
   }
 
   void random_ops(vj::Rng& r, unsigned steps) {
-    if (r.chance(2, 5)) { tidy_ops(r, steps); return; }
+    if (r.chance(2, 5)) { tidy_ops(r, steps); if (r.chance(1, 3)) { reinit(); tidy = false; if (r.chance(1, 2)) tidy_ops(r, steps / 2 + 1); } return; }
     for (unsigned i = 0; i < steps && !finalized; i++) {
+      if (r.chance(1, 40)) { reinit(); continue; }
       unsigned c = unsigned(r.below(100));
       unsigned nodes = 0;
       for (BaseNode* n = cc.first_node(); n; n = n->next()) nodes++;
